@@ -46,6 +46,16 @@ def _harnesses():
     return out
 
 
+def _shared():
+    # PacketHeaders on MACsec / VLAN stacks against the reference walk that C03 ties SlicedPacket to (verdict, link
+    # extensions, remaining payload range and length source, error values): body in c03::glue, owned by C07's registry
+    try:
+        from reg import c07
+        return [h for h in c07.HDR if not h["name"].endswith("_lax")]
+    except Exception:
+        return []
+
+
 ID = "C04"
 PROP = {
     "max_jobs": 3,  # parallel CBMC jobs (memory profile of these harnesses)
@@ -71,5 +81,5 @@ PROP = {
         "lax IPv6 slicing results have no to_header(): the extension part is converted with "
         "Ipv6Extensions::from_slice_lax over exactly the bytes the sliced result covers",
     ],
-    "harnesses": _harnesses(),
+    "harnesses": _harnesses() + _shared(),
 }
